@@ -15,7 +15,7 @@ Definition xml_sites : list site := [
   mk_site (s2l "saml2_tophat/sigver.py") 977 (s2l "CryptoBackendXMLSecurity.sign_statement") (s2l "tostring") (Some (s2l "lxml.etree")) KCall OptionalBackend [((s2l "xml_declaration"), KwTrue)] 1 false;
   mk_site (s2l "saml2_tophat/sigver.py") 996 (s2l "CryptoBackendXMLSecurity.validate_signature") (s2l "parse_xml") (Some (s2l "xmlsec")) KCall OptionalBackend [] 1 false;
   mk_site (s2l "saml2_tophat/sigver.py") 999 (s2l "CryptoBackendXMLSecurity.validate_signature") (s2l "verify") (Some (s2l "xmlsec")) KCall OptionalBackend [] 2 false;
-  mk_site (s2l "saml2_tophat/sigver.py") 1776 (s2l "_enveloped_signature_ok") (s2l "fromstring") (Some (s2l "defusedxml.ElementTree")) KCall Core [] 1 false;
+  mk_site (s2l "saml2_tophat/sigver.py") 1788 (s2l "_enveloped_signature_ok") (s2l "fromstring") (Some (s2l "defusedxml.ElementTree")) KCall Core [] 1 false;
   mk_site (s2l "saml2_tophat/soap.py") 137 (s2l "parse_soap_enveloped_saml_thingy") (s2l "fromstring") (Some (s2l "defusedxml.ElementTree")) KCall Core [] 1 false;
   mk_site (s2l "saml2_tophat/soap.py") 187 (s2l "class_instances_from_soap_enveloped_saml_thingies") (s2l "fromstring") (Some (s2l "defusedxml.ElementTree")) KCall Core [] 1 false;
   mk_site (s2l "saml2_tophat/soap.py") 213 (s2l "open_soap_envelope") (s2l "fromstring") (Some (s2l "defusedxml.ElementTree")) KCall Core [] 1 false
